@@ -1,7 +1,7 @@
 """C17 serde: digit-for-digit (no float on the string / JSON-number paths), errors not panics,
 scale limit in both JSON-number adapters (sibling cross-check), serialisation through Display."""
 import re
-from facts import cres, cdef
+from facts import cres, cdef, strip_lt
 from rules import prov, provrules as R, table as TB
 from rules.panic_clause import panic_clause, reach_stop
 from props import common
@@ -176,6 +176,104 @@ def sibling_signatures(rep, F, rule='SIBLING-LIMIT'):
     return 1
 
 
+NUM_W = {'u8': 8, 'u16': 16, 'u32': 32, 'u64': 64, 'u128': 128, 'usize': 64, 'i8': 8, 'i16': 16, 'i32': 32, 'i64': 64, 'i128': 128, 'isize': 64, 'f32': 32, 'f64': 64}
+
+
+def numeric_visitors(rep, F, rule='VISITOR-EXACT'):
+    """integers and floats handed over by other formats convert exactly: in every visit_<number> method the handed-over
+    value (tracked through copies and widening casts, into local helpers) reaches only the exact converters
+    From<int> / TryFrom<float> for BigDecimal; a lossy cast (float->int, int->float, narrowing, sign-changing),
+    arithmetic on it, or rendering it as text is a violation; an unknown external callee is undecided"""
+    n = 0
+    for f in F.real_fns():
+        if f.is_closure or f.self_ty is None or 'BigDecimalVisitor' not in f.self_ty or not re.match(r'visit_([iu](8|16|32|64|128)|f(32|64))$', f.item or ''):
+            continue
+        n += 1
+        rep.add_functions([f.name])
+        key = f.key + ':value-exact'
+        probs, undec, sinks = [], [], []
+
+        def walk(g, params, depth=0):
+            tainted = set(params)
+            changed = True
+            while changed:
+                changed = False
+                for bid, st in g.stmts():
+                    rv = st['rv']
+                    l = st['lhs']['l']
+                    src = None
+                    if rv['r'] in ('use',) and rv['op']['k'] in ('copy', 'move'):
+                        src = rv['op']['pl']['l']
+                    elif rv['r'] == 'ref':
+                        src = rv['pl']['l']
+                    elif rv['r'] == 'agg':
+                        if any(o['k'] in ('copy', 'move') and o['pl']['l'] in tainted for o in rv['ops']) and l not in tainted:
+                            tainted.add(l)
+                            changed = True
+                        continue
+                    elif rv['r'] == 'cast' and rv['op']['k'] in ('copy', 'move') and rv['op']['pl']['l'] in tainted:
+                        sty = strip_lt(g.locals[rv['op']['pl']['l']]).lstrip('&')
+                        dty = strip_lt(rv.get('to') or g.locals[l])
+                        kind = rv.get('kind', '')
+                        ok = False
+                        if kind.startswith('FloatToFloat') and NUM_W.get(dty, 0) >= NUM_W.get(sty, 999):
+                            ok = True
+                        elif kind.startswith('IntToInt') and sty[:1] in 'iu' and dty[:1] in 'iu':
+                            ws, wd = NUM_W.get(sty, 999), NUM_W.get(dty, 0)
+                            ok = (sty[0] == dty[0] and wd >= ws) or (sty[0] == 'u' and dty[0] == 'i' and wd > ws)
+                        if ok:
+                            src = rv['op']['pl']['l']
+                        else:
+                            probs.append(('lossy cast `%s as %s` (%s) of the handed-over value' % (sty, dty, kind), g.where(st['line'])))
+                            continue
+                    elif rv['r'] == 'bin' and any(o['k'] in ('copy', 'move') and o['pl']['l'] in tainted for o in (rv['a'], rv['b'])):
+                        if rv['bop'].replace('WithOverflow', '') in ('Add', 'Sub', 'Mul', 'Div', 'Rem', 'Shl', 'Shr', 'BitAnd', 'BitOr', 'BitXor'):
+                            if l not in tainted:
+                                tainted.add(('derived', l))
+                        continue
+                    if src is not None and src in tainted and l not in tainted:
+                        tainted.add(l)
+                        changed = True
+            derived = {x[1] for x in tainted if isinstance(x, tuple)}
+            for bid, t in g.calls():
+                idx = [i for i, a in enumerate(t['args']) if a['k'] in ('copy', 'move') and a['pl']['l'] in tainted]
+                didx = [i for i, a in enumerate(t['args']) if a['k'] in ('copy', 'move') and a['pl']['l'] in derived]
+                d = prov.strip_args(cdef(t))
+                res = cres(t)
+                if didx and re.search(r'convert::(From::from|TryFrom::try_from|Into::into|TryInto::try_into)$', d) and 'BigDecimal' in res:
+                    probs.append(('a value computed from the handed-over number (not the number itself) is converted', g.where(t['loc']['line'])))
+                if not idx:
+                    continue
+                if re.search(r'convert::(From::from|TryFrom::try_from|Into::into|TryInto::try_into)$', d):
+                    if 'BigDecimal' in res or 'BigDecimal' in strip_lt(g.locals[t['dest']['l']]):
+                        sinks.append(res)
+                    elif re.search(r'for (f32|f64|[iu]\d+)>', res) or re.search(r'^(f32|f64|[iu]\d+)$', strip_lt(g.locals[t['dest']['l']])):
+                        # primitive-to-primitive From is lossless by construction in std
+                        pass
+                    else:
+                        undec.append('converted through %s' % res[-60:])
+                elif re.search(r'fmt::rt::Argument.*::new_|string::ToString::to_string$|fmt::(Display|LowerExp|Debug)::fmt$', d):
+                    probs.append(('the handed-over number is rendered as text (shortest-digits float text is not the exact binary value)', g.where(t['loc']['line'])))
+                elif re.search(r'::is_nan$|::is_finite$|::is_infinite$|::classify$|::is_sign_negative$|::is_sign_positive$|cmp::Partial(Eq|Ord)::', d):
+                    pass
+                else:
+                    tg = F.call_targets(g, t)
+                    if tg and depth < 3:
+                        for nm in tg:
+                            walk(F.fns[nm], [i + 1 for i in idx], depth + 1)
+                    else:
+                        undec.append('passed to %s' % (res or d)[-60:])
+
+        walk(f, [2])
+        if probs:
+            rep.violation(rule, key, '%s: %s' % (f.item, probs[0][0]), probs[0][1])
+        elif undec or not sinks:
+            rep.undecided(rule, key, (undec or ['the handed-over value reaches no BigDecimal converter'])[0], f.where())
+        else:
+            rep.ok(rule, key, '%s: the value reaches only %s' % (f.item, sorted(set(x.split('::<')[-1][:70] for x in sinks))[0]), f.where())
+    return n
+
+
 def run_config(ctx, feat):
     rep = ctx.rep
     Fd = ctx.facts(feat, 'dbg')
@@ -190,6 +288,8 @@ def run_config(ctx, feat):
         Fr._prov = prov.ProvEngine(Fr)
     nl = sibling_limit(rep, Fr, Fr._prov)
     sibling_signatures(rep, Fr)
+    nv = numeric_visitors(rep, Fr)
+    rep.floor('numeric visitor methods', nv, 6)
     return len(ents_d), nsites, nf, ns, nl
 
 
@@ -199,7 +299,7 @@ def run(ctx):
                        'R-NOCALL: no float conversion/parse/cast is reachable from visit_str, visit_map or the two JSON-number adapters (float visitors '
                        'are cut: they are C14\'s subject). R-PANIC: every may-panic site on those paths is discharged or reviewed (debug-profile facts). '
                        'SIBLING-LIMIT: both adapters compare the scale with the generated SERDE_SCALE_LIMIT. R-FWD: Serialize is collect_str(self) and the '
-                       'adapters serialise Number::from_str(Display text). NOT decided: round-trip equality; the "00" rendering of a zero with negative scale.')
+                       'adapters serialise Number::from_str(Display text). VISITOR-EXACT: in every visit_<integer|float> method the handed-over value reaches only the exact From<int>/TryFrom<float> converters - no lossy cast, arithmetic or text rendering on the way. NOT decided: round-trip equality; the "00" rendering of a zero with negative scale.')
     ne, nsites, nf, ns, nl = run_config(ctx, 'serde')
     rep.floor('deserialisation entries', ne, 4)
     rep.floor('may-panic sites', nsites, 10)
